@@ -91,6 +91,8 @@ def check(run):
     run.attempt(mirrors, run, p)
     run.attempt(verdicts, run, p, km)
     run.attempt(keeps_constraints, run, p, km)
+    run.attempt(frameall, run, p)
+    run.attempt(exactstats, run, p)
     from .common import observed_rule
     calc = p.cls('PandasConstraintCalculator')
     n_obs = observed_rule(run, 'C02-OBSERVED', p, list(calc.methods.values()),
@@ -648,6 +650,53 @@ def type_table(run, p, ver):
                n, '' if not bad else '; wrong for e.g. mode=%s allowed=%s actual=%s non-integers=%s booleans=%s: %r instead of %r' % bad[0]),
            fn=ver, detail={'wrong': bad[:5]} if bad else None)
     return n
+
+
+def exactstats(run, p):
+    run.rule('C02-EXACTSTAT', 'the only tolerance in a verdict is the documented one (epsilon, in the fuzzy comparators): no calc_* method of '
+                              'the pandas calculator decides with isclose / allclose / approx / a rounding of the values - a count of '
+                              'non-integer values taken with a relative tolerance calls 150000.25 whole, and the type verdict that rests '
+                              'on that count passes a real column as int')
+    c = p.cls('PandasConstraintCalculator')
+    n = 0
+    for nm, m in sorted(c.methods.items()):
+        if not nm.startswith('calc_'):
+            continue
+        n += 1
+        bad = [x for x in p.own_nodes(m) if isinstance(x, ast.Call) and (getattr(x.func, 'attr', None) or getattr(x.func, 'id', '')) in ('isclose', 'allclose', 'approx', 'assert_allclose')]
+        run.ob('C02-EXACTSTAT', '%s::%s' % (m.rel, m.short), not bad,
+               '%s %s' % (m.short, 'computes its statistic without a tolerance' if not bad else 'decides with `%s`' % norm(bad[0])[:60]), fn=m, node=bad[0] if bad else None)
+    run.floor('C02-EXACTSTAT', n, 8)
+
+
+def frameall(run, p):
+    run.rule('C02-FRAMEALL', 'the tabular form of a verification holds every field whatever was asked to be printed: nothing reachable from '
+                             'PandasVerification.to_frame / to_dataframe / verification_to_dataframe reads the report option (which '
+                             'selects what __str__ prints) - a table built from the printed selection loses the fields that pass, and '
+                             'its passes column no longer adds up to the count of the result')
+    c = p.cls('PandasVerification')
+    roots = [m for nm, m in c.methods.items() if nm in ('to_frame', 'to_dataframe', 'verification_to_dataframe')]
+    if not roots:
+        raise AnalysisError('PandasVerification has no to_frame / verification_to_dataframe')
+    seen = p.reach(roots)
+    done = set()
+    bad = []
+    for (qn, ctx) in seen:
+        if qn in done:
+            continue
+        done.add(qn)
+        g = p.funcs[qn]
+        if not g.mod.name.startswith('tdda.constraints'):
+            continue
+        for x in p.own_nodes(g):
+            if isinstance(x, ast.Attribute) and x.attr == 'report' and isinstance(x.ctx, ast.Load):
+                bad.append((g, x))
+            if isinstance(x, ast.Call) and norm(x.func) == 'getattr' and len(x.args) >= 2 and isinstance(x.args[1], ast.Constant) and x.args[1].value == 'report':
+                bad.append((g, x))
+    run.ob('C02-FRAMEALL', '%s::%s' % (c.mod.rel, c.name), not bad,
+           '%d functions reachable from the tabular form; %s' % (len(done), 'none reads the report option' if not bad else
+                                                                  '%s reads `%s`' % (bad[0][0].short, norm(bad[0][1]))), fn=bad[0][0] if bad else roots[0], node=bad[0][1] if bad else None)
+    run.floor('C02-FRAMEALL', len(done), 2)
 
 
 def keeps_constraints(run, p, km, rid='C02-KEEPS'):
